@@ -88,7 +88,7 @@ def plan_items(prop, tier, seed, ncases):
             # "same operation from two threads" sweep over the whole catalogue (object + NumPy; Awkward too in thorough)
             from . import directed
 
-            for q in range(_lim(6 if tier == "thorough" else 2)):
+            for q in range(_lim(6)):
                 items.append(("directed", (base % 20000) * 100000 + 60000 + q, tier, prop))
             for q in range(_lim(len(directed.register_templates()))):
                 items.append(("directed", (base % 20000) * 100000 + 70000 + q, tier, prop))
